@@ -811,7 +811,10 @@ class Evolution(pg.DNAGenerator):
         if get_feedback_sequence_number(dna) is None:
           self.feedback(dna, reward)
         else:
-          assert get_fitness(dna) == reward, (dna, reward)
+          # NOTE: the history holds the reward as it was given to `feedback`,
+          # the DNA holds it in the form `_feedback` received.
+          assert get_fitness(dna) == self._normalized_reward(reward), (
+              dna, reward)
           self._population.append(dna)
           if self._population_update:
             self._population = self._population_update(
